@@ -391,7 +391,8 @@ func shimSameCell(x *Exec, t *Thread, a []Value, c *callCtx) (Value, nativeStatu
 	if s1.Arr == nil || s2.Arr == nil {
 		return x.F.False, nDone
 	}
-	return x.F.Bool(s1.Arr == s2.Arr), nDone
+	// as the native twin: two slices share memory only if both can reach at least one element
+	return x.F.Bool(s1.Arr == s2.Arr && s1.Cap > 0 && s2.Cap > 0), nDone
 }
 
 func shimHeld(x *Exec, t *Thread, a []Value, c *callCtx) (Value, nativeStatus) {
